@@ -141,6 +141,12 @@ Definition verify_cached_g (P : pool) (bl : blocklist) (t : Z) (cc : cached) (si
 Definition verify_cached (P : pool) (bl : blocklist) (t : Z) (cc : cached) (sigok : bool) : res cert :=
   verify_cached_g P bl t cc (fun _ => sigok).
 
+(* A CAPool keeps no verification history (CAs and certBlocklist are its whole state and verification does not
+   write them): a sequence of verifications on one pool object is the verification of each element. *)
+Record vstep := mkStep { s_time : Z; s_cert : cert; s_sig : cert -> bool }.
+Definition verify_seq (P : pool) (bl : blocklist) (steps : list vstep) : list bool :=
+  map (fun s => is_ok (verify_g P bl (s_time s) (s_cert s) (s_sig s))) steps.
+
 (* ---- the documented trust rule, written from the property text ----------------------------------- *)
 
 Definition valid_at (c : cert) (t : Z) : bool := (c_nb c <=? t)%Z && (t <=? c_na c)%Z.
@@ -255,6 +261,36 @@ Definition sign_with (signer : option cert) (kcurve : N) (t : tbs) (fp fp2 : str
       else if t_version t =? 2 then (if validate_v2 t then SOk c else SErr SValidate)
       else SErr SVersion
   end.
+
+(* The TBSCertificate OBJECT also carries the unexported field [issuer], which is what fromTBSCertificate copies
+   into the certificate. SignWith writes it (t.issuer = signer.Fingerprint()) once the signer's guards and
+   constraints have passed, and clears it (t.issuer = "") when self-signing a CA request. [sign_with_st] is SignWith on an
+   object whose issuer field currently holds [iss0]; it returns the new content of the field as well.
+   A freshly built request has iss0 = [] ([sign_with] above). *)
+Definition sign_with_st (signer : option cert) (kcurve : N) (t : tbs) (iss0 fp fp2 : str) : sres * str :=
+  if negb (kcurve =? t_curve t) then (SErr SKeyCurve, iss0) else
+  let issuer :=
+    match signer with
+    | Some ca =>
+        if t_isCA t then inr SCaWithSigner else
+        match check_ca_constraints ca (t_nb t) (t_na t) (t_groups t) (t_networks t) (t_unsafe t) with
+        | Some e => inr (SConstraint e)
+        | None => inl (c_fp ca)
+        end
+    | None => if negb (t_isCA t) then inr SSelfNotCA else inl []
+    end in
+  match issuer with
+  | inr e => (SErr e, iss0)
+  | inl iss =>
+      let c := mkCert (t_version t) (t_curve t) (t_name t) (t_networks t) (t_unsafe t) (t_groups t) (t_isCA t)
+                      (t_nb t) (t_na t) iss (t_pub t) fp fp2 in
+      (if t_version t =? 1 then (if validate_v1 t then SOk c else SErr SValidate)
+       else if t_version t =? 2 then (if validate_v2 t then SOk c else SErr SValidate)
+       else SErr SVersion, iss)
+  end.
+
+Definition sign_st (signer : option cert) (kcurve : N) (t : tbs) (iss0 fp fp2 : str) : sres * str :=
+  if (t_curve t =? 0) || (t_curve t =? 1) then sign_with_st signer kcurve t iss0 fp fp2 else (SErr SBadCurve, iss0).
 
 (* TBSCertificate.Sign(signer, curve, key): dispatches on the TBS curve first (anything but the two known
    curves is refused; a P256 key that does not parse is outside the model), then SignWith. *)
